@@ -1,0 +1,37 @@
+//go:build verif
+
+package iface
+
+// Contracts for the arm64 interface-stub emitters (checked by /verif/bin/govc with GOARCH=arm64).
+
+//@ func movImm
+//@   props C15
+//@   assigns nothing
+//@   fresh
+//@   requires imm16: val <= 0xFFFF
+//@   ensures len4: len(result) == 4 && cap(result) == 4
+//@   ensures word: le32at(result, 0) == (0x80000000 | uint32(opc&3)<<29 | 0x12800000 | uint32(shift&3)<<21 | uint32(val)<<5 | 26)
+
+//@ func jmpWithRdx
+//@   props C15 C07
+//@   assigns nothing
+//@   ensures len24: len(value) == 24
+//@   ensures movz: a64_is_movwide(le32at(value, 0), 2, 0, 26)
+//@   ensures movk1: a64_is_movwide(le32at(value, 4), 3, 1, 26)
+//@   ensures movk2: a64_is_movwide(le32at(value, 8), 3, 2, 26)
+//@   ensures movk3: a64_is_movwide(le32at(value, 12), 3, 3, 26)
+//@   ensures reassembled: a64_movk(a64_movk(a64_movk(a64_movz(a64_imm16(le32at(value, 0)), 0),
+//@     | a64_imm16(le32at(value, 4)), 1), a64_imm16(le32at(value, 8)), 2), a64_imm16(le32at(value, 12)), 3) == uint64(dx)
+//@   ensures ldr_br: a64_is_ldr(le32at(value, 16), 26, 27) && a64_is_br(le32at(value, 20), 27)
+
+//@ func jmpWithRdxAndCtx
+//@   props C15 C07
+//@   assigns nothing
+//@   ensures len24: len(value) == 24
+//@   ensures movz: a64_is_movwide(le32at(value, 0), 2, 0, 26)
+//@   ensures movk1: a64_is_movwide(le32at(value, 4), 3, 1, 26)
+//@   ensures movk2: a64_is_movwide(le32at(value, 8), 3, 2, 26)
+//@   ensures movk3: a64_is_movwide(le32at(value, 12), 3, 3, 26)
+//@   ensures reassembled: a64_movk(a64_movk(a64_movk(a64_movz(a64_imm16(le32at(value, 0)), 0),
+//@     | a64_imm16(le32at(value, 4)), 1), a64_imm16(le32at(value, 8)), 2), a64_imm16(le32at(value, 12)), 3) == uint64(ctx)
+//@   ensures ldr_br: a64_is_ldr(le32at(value, 16), 26, 27) && a64_is_br(le32at(value, 20), 27)
